@@ -873,8 +873,15 @@ class Flow:
         return out
 
     def _closure_body_of_operand(self, body, op):
-        """Closure body passed as operand (by its type)."""
+        """Closure body passed as operand (by its type); a named crate-local
+        function passed as a value counts as a closure without environment."""
         if op["k"] == "const":
+            f = op.get("fn")
+            if f:
+                r = f.get("resolved")
+                if isinstance(r, dict) and r.get("path") in self.fb.bodies:
+                    return self.fb.bodies[r["path"]]
+                return self.fb.bodies.get(f.get("path"))
             return None
         l = op["pl"]["l"]
         ty = body.locals[l]
@@ -937,7 +944,37 @@ class Flow:
         for (cb, bb, t) in sites:
             if local - 1 < len(t["args"]):
                 res |= self._q_operand(cb, t["args"][local - 1], path, mode)
+        # the function passed as a value to an adaptor (`.map(helper)`): its parameter i is the closure parameter i+1
+        for (pb, bb, t, ai) in self.fn_item_uses().get(body.id, []):
+            p = callee_path(t)
+            model = ADAPTORS.get(p)
+            if model is None or model.get("f") != ai or (local + 1) not in model["params"]:
+                res.add(Src(("unknown", "function item %s passed to %s" % (body.id, p))))
+                continue
+            res.discard(Src(("param", body.id, local, tuple(path)))) if not (sig is None or sig.get("public")) else None
+            for src, prefix in model["params"][local + 1]:
+                if src == "ret":
+                    res |= self._q(body, 0, tuple(prefix) + tuple(path), mode)
+                else:
+                    res |= self._q_operand(pb, t["args"][src], tuple(prefix) + tuple(path), mode)
         return res
+
+    def fn_item_uses(self):
+        """crate-local function id -> [(body, bb, call term, arg index)] where the function item is passed as an argument"""
+        m = getattr(self, "_fn_item_uses", None)
+        if m is None:
+            m = {}
+            for b in self.fb.bodies.values():
+                for bb, t in b.calls():
+                    for ai, a in enumerate(t["args"]):
+                        if a.get("k") == "const" and "fn" in a:
+                            f = a["fn"]
+                            r = f.get("resolved")
+                            pth = r["path"] if isinstance(r, dict) and r.get("path") in self.fb.bodies else f.get("path")
+                            if pth in self.fb.bodies:
+                                m.setdefault(pth, []).append((b, bb, t, ai))
+            self._fn_item_uses = m
+        return m
 
     def closure_uses(self, cbody):
         """[(parent body, bb, term, arg position)] where closure value is
